@@ -911,6 +911,16 @@ func (c *cenv) Lookup(name string, old bool) (SV, bool) {
 		return SV{T: fmt.Sprint(st.nextCalled), Sort: "Int"}, true
 	case "$hookCalls":
 		return SV{T: fmt.Sprint(len(st.hookCalls)), Sort: "Int"}, true
+	case "$hookCount":
+		if st.hookCount == "" {
+			return SV{T: "0", Sort: "Int"}, true
+		}
+		return SV{T: st.hookCount, Sort: "Int"}, true
+	case "$hookName":
+		if n := len(st.hookCalls); n > 0 {
+			return SV{T: x.enc.Lit(st.hookCalls[n-1].Name), Sort: "Bytes"}, true
+		}
+		return SV{T: x.enc.Lit(""), Sort: "Bytes"}, true
 	case "$hookCfg":
 		if n := len(st.hookCalls); n > 0 {
 			return SV{T: st.hookCalls[n-1].Cfg.T, Ty: st.hookCalls[n-1].Cfg.Ty}, true
@@ -1207,6 +1217,8 @@ func (c *cenv) AtCall(fn string) (SpecEnv, bool) {
 	}
 	return c, false
 }
+
+func (c *cenv) HookCallList() []HookCall { return c.st.hookCalls }
 
 // CallInfo exposes the recorded by-contract calls of the current path to postconditions.
 func (c *cenv) CallInfo(kind, fn string, i int) (SV, bool) {
